@@ -149,6 +149,10 @@ func hookCommits() []string {
 
 var engineKinds = map[string]string{}
 
+// oldGoEngines are built with the repository's default toolchain instead of
+// go1.26.8 (they do not use testing/synctest).
+var oldGoEngines = map[string]bool{}
+
 // notYet: properties for which no check is registered (yet); each is listed in
 // MANIFEST.not_applicable with the honest reason "not built" until claimed.
 var notYet = []struct{ ID, Reason string }{}
